@@ -346,8 +346,11 @@ impl<T: MessageType> MessageEncoder<T> {
         conn_type: ConnectionType,
         config: &ServiceConfig,
     ) -> io::Result<()> {
+        // a 204 response never has a body, whatever body the response was built with
+        let bodiless = matches!(message.status(), Some(StatusCode::NO_CONTENT));
+
         // transfer encoding
-        if !head {
+        if !head && !bodiless {
             self.te = match length {
                 BodySize::Sized(0) => TransferEncoding::empty(),
                 BodySize::Sized(len) => TransferEncoding::length(len),
